@@ -19,6 +19,17 @@ MCRelsVal   == <<"call", "read", "write", "conv", "inst", "retfn">>
 MCKindsConv == <<"func", "struct", "field">>
 MCRelsConv  == <<"read", "write", "sconv", "lit">>
 
+\* embedding family (rule 6.5 and the cycle cuts of its walk): one exported root function, up to
+\* three unexported structs, at most one int field each (exported or not) and ANY embedding relation
+\* between the structs, including self-embedding and cycles (`type e struct{ *x; F int }`,
+\* `type x struct{ *e }`, `type y struct{ *x }`); the root may convert to one of the structs
+MCKindsEmbed == <<"func", "struct", "field", "embed">>
+MCRelsEmbed  == <<"conv">>
+MCCandEmbed(OO, o) ==
+  /\ o.k = "func" => Len(OO) = 0
+  /\ o.k = "struct" => ~o.ex /\ Cardinality({ i \in 1..Len(OO) : OO[i].k = "struct" }) < 3
+  /\ o.k = "field" => o.ty = 0 /\ o.sl = 1
+
 O(k, ex, ow, sl, ty) == [k |-> k, ex |-> ex, ow |-> ow, sl |-> sl, ty |-> ty]
 R(r, a, b, c) == [r |-> r, a |-> a, b |-> b, c |-> c]
 
